@@ -6,7 +6,9 @@ rows = ["| change | origin | files | needs to manifest | caught by | not caught 
 for d in sorted(glob.glob(V + "/seeded/*/")):
     m = json.load(open(d + "meta.json"))
     name = os.path.basename(d.rstrip("/"))
-    origin = "white-box (7.7)" if m["origin"].startswith("white-box") else "independent"
+    origin = "white-box (7.7)" if m["origin"].startswith("white-box") else \
+        "independent, round 3" if "third round" in m["origin"] else \
+        "independent, round 2" if "second round" in m["origin"] else "independent, round 1"
     rows.append(f"| {name} | {origin} | {', '.join(x.replace('fibertree/', '') for x in m['files_changed'])} | {m['needs_to_manifest']} | "
                 f"{'; '.join(m['detected_by']) or '-'} | {'; '.join(m['not_detected_by']) or '-'} |")
 p = V + "/DESIGN.md"
